@@ -10,8 +10,15 @@ package git
 // subprocess.  Assumed (not verified): they allocate their results and write
 // no existing object of this process.
 //@ func (*Configuration).gitConfig
+//@   props C11 C20
+//@   requires @inv c != nil
+//@   modifies fresh
+//@   at call subprocess.ExecCommand:1 assert arg0__ == "git" && len(arg1__) == len(old(args)) + 2 && arg1__[0] == "config" && arg1__[1] == "--includes"
+//@   at call subprocess.ExecCommand:1 assert forall_int(k, arg1__[k], 2 <= k && k < len(arg1__) ==> arg1__[k] == old(args)[k - 2])
+//@   at call subprocess.Output:1 assert arg0__ == cmd
+//@ func github.com/git-lfs/git-lfs/v3/subprocess.Output
 //@   assumed
-//@   props C11
+//@   props C11 C20
 //@   modifies fresh
 //@ func IsBare
 //@   assumed
@@ -90,3 +97,96 @@ package git
 //@   at call git.includeExcludeShas:2 assert arg0__ == include && arg1__ == exclude && len(opt.SkippedRefs) == 0
 //@   at call git.includeExcludeShas:3 assert arg0__ == include && arg1__ == exclude && len(opt.SkippedRefs) > 0
 //@   at call strings.Join:2 assert opt.Mode == ScanRangeToRemoteMode ==> len(args) >= 3 && args[len(args)-2] == "--not" && args[len(args)-1] == scat("--remotes=", opt.Remote)
+
+// C20: reading and writing Git's configuration.  Every lookup and every write
+// runs `git config --includes` (so a value that lives in an included file is
+// seen, and a differing one is not mistaken for "unset"), in exactly the scope
+// the caller named; a read-only configuration writes nothing.  cfg_find(scope,
+// file, key) is what Git answers for that scope (assumed: the subprocess
+// boundary).
+//@ func (*Configuration).gitConfigWrite
+//@   props C20
+//@   requires @inv c != nil
+//@   modifies fresh
+//@   at call (*git.Configuration).gitConfig:1 assert !c.readOnly && arg1__ == args
+//@   ensures c.readOnly ==> result1 != nil
+//@ func (*Configuration).FindGlobal
+//@   props C20
+//@   pure
+//@   requires @inv c != nil
+//@   at call (*git.Configuration).gitConfig:1 assert len(arg1__) == 2 && arg1__[0] == "--global" && arg1__[1] == key
+//@   ensures @assumed result == cfg_find("global", "", key)
+//@ func (*Configuration).FindSystem
+//@   props C20
+//@   pure
+//@   requires @inv c != nil
+//@   at call (*git.Configuration).gitConfig:1 assert len(arg1__) == 2 && arg1__[0] == "--system" && arg1__[1] == key
+//@   ensures @assumed result == cfg_find("system", "", key)
+//@ func (*Configuration).FindLocal
+//@   props C20
+//@   pure
+//@   requires @inv c != nil
+//@   at call (*git.Configuration).gitConfig:1 assert len(arg1__) == 2 && arg1__[0] == "--local" && arg1__[1] == key
+//@   ensures @assumed result == cfg_find("local", "", key)
+//@ func (*Configuration).FindWorktree
+//@   props C20
+//@   pure
+//@   requires @inv c != nil
+//@   at call (*git.Configuration).gitConfig:1 assert len(arg1__) == 2 && arg1__[0] == "--worktree" && arg1__[1] == key
+//@   ensures @assumed result == cfg_find("worktree", "", key)
+//@ func (*Configuration).FindFile
+//@   props C20
+//@   pure
+//@   requires @inv c != nil
+//@   at call (*git.Configuration).gitConfig:1 assert len(arg1__) == 3 && arg1__[0] == "--file" && arg1__[1] == file && arg1__[2] == key
+//@   ensures @assumed result == cfg_find("file", file, key)
+//@ func (*Configuration).SetGlobal
+//@   props C20
+//@   requires @inv c != nil
+//@   modifies fresh
+//@   at call (*git.Configuration).gitConfigWrite:1 assert len(arg1__) == 4 && arg1__[0] == "--global" && arg1__[1] == "--replace-all" && arg1__[2] == key && arg1__[3] == val
+//@ func (*Configuration).SetSystem
+//@   props C20
+//@   requires @inv c != nil
+//@   modifies fresh
+//@   at call (*git.Configuration).gitConfigWrite:1 assert len(arg1__) == 4 && arg1__[0] == "--system" && arg1__[1] == "--replace-all" && arg1__[2] == key && arg1__[3] == val
+//@ func (*Configuration).SetLocal
+//@   props C20
+//@   requires @inv c != nil
+//@   modifies fresh
+//@   at call (*git.Configuration).gitConfigWrite:1 assert len(arg1__) == 3 && arg1__[0] == "--replace-all" && arg1__[1] == key && arg1__[2] == val
+//@ func (*Configuration).SetWorktree
+//@   props C20
+//@   requires @inv c != nil
+//@   modifies fresh
+//@   at call (*git.Configuration).gitConfigWrite:1 assert len(arg1__) == 4 && arg1__[0] == "--worktree" && arg1__[1] == "--replace-all" && arg1__[2] == key && arg1__[3] == val
+//@ func (*Configuration).SetFile
+//@   props C20
+//@   requires @inv c != nil
+//@   modifies fresh
+//@   at call (*git.Configuration).gitConfigWrite:1 assert len(arg1__) == 5 && arg1__[0] == "--file" && arg1__[1] == file && arg1__[2] == "--replace-all" && arg1__[3] == key && arg1__[4] == val
+//@ func (*Configuration).UnsetGlobalSection
+//@   props C20
+//@   requires @inv c != nil
+//@   modifies fresh
+//@   at call (*git.Configuration).gitConfigWrite:1 assert len(arg1__) == 3 && arg1__[0] == "--global" && arg1__[1] == "--remove-section" && arg1__[2] == key
+//@ func (*Configuration).UnsetSystemSection
+//@   props C20
+//@   requires @inv c != nil
+//@   modifies fresh
+//@   at call (*git.Configuration).gitConfigWrite:1 assert len(arg1__) == 3 && arg1__[0] == "--system" && arg1__[1] == "--remove-section" && arg1__[2] == key
+//@ func (*Configuration).UnsetLocalSection
+//@   props C20
+//@   requires @inv c != nil
+//@   modifies fresh
+//@   at call (*git.Configuration).gitConfigWrite:1 assert len(arg1__) == 3 && arg1__[0] == "--local" && arg1__[1] == "--remove-section" && arg1__[2] == key
+//@ func (*Configuration).UnsetWorktreeSection
+//@   props C20
+//@   requires @inv c != nil
+//@   modifies fresh
+//@   at call (*git.Configuration).gitConfigWrite:1 assert len(arg1__) == 3 && arg1__[0] == "--worktree" && arg1__[1] == "--remove-section" && arg1__[2] == key
+//@ func (*Configuration).UnsetFileSection
+//@   props C20
+//@   requires @inv c != nil
+//@   modifies fresh
+//@   at call (*git.Configuration).gitConfigWrite:1 assert len(arg1__) == 4 && arg1__[0] == "--file" && arg1__[1] == file && arg1__[2] == "--remove-section" && arg1__[3] == key
